@@ -76,6 +76,8 @@ pub struct Stats {
     pub seconds: u64,
     /// order-sensitive hash of everything the run reported (determinism digest)
     pub trace: u64,
+    /// (hash of previous op kind, its outcome) for the 3-gram measure
+    pub prev: (u64, bool),
 }
 impl Stats {
     fn mix(&mut self, x: u64) {
@@ -86,6 +88,17 @@ impl Stats {
         std::hash::Hasher::write(&mut h, k.as_bytes());
         self.mix(h.0);
         *self.counters.entry(k.to_string()).or_insert(0) += 1;
+    }
+    /// one transaction of kind `kind` was delivered and succeeded / was refused
+    pub fn tx(&mut self, kind: &str, ok: bool) {
+        self.hit(if ok { "tx.ok" } else { "tx.refused" });
+        self.hit(&format!("op.{}.{}", kind, if ok { "ok" } else { "refused" }));
+        let mut h = Fnv(0xcbf29ce484222325);
+        std::hash::Hasher::write(&mut h, kind.as_bytes());
+        let cur = (h.0, ok);
+        let p = self.prev;
+        self.gram(&(p, cur));
+        self.prev = cur;
     }
     pub fn add(&mut self, k: &str, n: u64) {
         *self.counters.entry(k.to_string()).or_insert(0) += n;
